@@ -24,6 +24,7 @@ import (
 	"github.com/xuperchain/xupercore/protos"
 
 	"github.com/golang/protobuf/proto"
+	cryptoCommon "github.com/xuperchain/crypto/core/common"
 )
 
 // ImmediateVerifyTx verify tx Immediately
@@ -317,6 +318,15 @@ func (t *State) verifyXuperSign(tx *pb.Transaction, digestHash []byte) (ok bool,
 		if !ok {
 			t.log.Warn("XuperSign: address and public key not match", "addr", addr, "pubkey", pubkeys[idx])
 			return false, nil, errors.New("XuperSign: address and public key not match")
+		}
+	}
+	// only a multi-signature proves that every listed key took part; the single-key schemes (ECDSA,
+	// Schnorr, threshold) are checked against the first key only and a ring signature proves one
+	// unknown member, so they cannot vouch for more than the initiator
+	if len(addrList) > 1 {
+		xsig := new(cryptoCommon.XuperSignature)
+		if jerr := json.Unmarshal(tx.GetXuperSign().GetSignature(), xsig); jerr != nil || xsig.SigType != cryptoCommon.MultiSig {
+			return false, nil, errors.New("XuperSign: this signature type cannot vouch for several addresses")
 		}
 	}
 	ok, err = t.sctx.Crypt.VerifyXuperSignature(pubkeys, tx.GetXuperSign().GetSignature(), digestHash)
